@@ -2,6 +2,7 @@ package main
 
 import (
 	"fmt"
+	"os"
 	"go/constant"
 	"go/token"
 	"go/types"
@@ -128,10 +129,17 @@ type Interp struct {
 	stubsUsed map[string]int
 	totalInst int64
 	mathConst map[string]uint64
+	pureCache map[string]Value
+	qsites    map[string]int
+	unsatUnder map[*Term][]*Term
 
 	// per path
 	pc        *Term
 	pcList    []*Term
+	pcSet     map[*Term]bool
+	pcChain   map[*Term]bool
+	eqConst   map[*Term]*Term
+	litLog    []*Term
 	dec       []Decision
 	prefix    []int
 	threads   []*Thread
@@ -205,6 +213,10 @@ func (in *Interp) unsupported(msg string) abort {
 func (in *Interp) resetPath(prefix []int) {
 	in.pc = in.tb.T
 	in.pcList = in.pcList[:0]
+	in.pcSet = map[*Term]bool{}
+	in.pcChain = map[*Term]bool{}
+	in.eqConst = map[*Term]*Term{}
+	in.litLog = nil
 	in.dec = in.dec[:0]
 	in.prefix = prefix
 	in.threads = nil
@@ -242,6 +254,108 @@ func (in *Interp) assumeTerm(c *Term) {
 	}
 	in.pc = in.tb.BAnd(in.pc, c)
 	in.pcList = append(in.pcList, c)
+	in.pcChain[in.pc] = true
+	in.addLits(c)
+}
+
+// addLits records the conjuncts of an assumed condition so that repeated tests of the same condition are decided
+// syntactically.
+func (in *Interp) addLits(c *Term) {
+	if c.op == OpBAnd {
+		in.addLits(c.a[0])
+		in.addLits(c.a[1])
+		return
+	}
+	if c.op == OpBNot && c.a[0].op == OpBOr {
+		in.addLits(in.tb.BNot(c.a[0].a[0]))
+		in.addLits(in.tb.BNot(c.a[0].a[1]))
+		return
+	}
+	if !in.pcSet[c] {
+		in.pcSet[c] = true
+		in.litLog = append(in.litLog, c)
+		if c.op == OpEq && c.a[1].op == OpConst && c.a[0].op != OpConst {
+			if _, ok := in.eqConst[c.a[0]]; !ok {
+				in.eqConst[c.a[0]] = c.a[1]
+			}
+		}
+	}
+}
+
+// simp rewrites a boolean condition using the literals and equalities known on this path (shallow, sound).
+func (in *Interp) simp(c *Term, depth int) *Term {
+	if c.IsConst() {
+		return c
+	}
+	if in.pcSet[c] {
+		return in.tb.T
+	}
+	if depth <= 0 {
+		return c
+	}
+	switch c.op {
+	case OpBNot:
+		if in.pcSet[c.a[0]] {
+			return in.tb.F
+		}
+		return in.tb.BNot(in.simp(c.a[0], depth-1))
+	case OpBAnd:
+		return in.tb.BAnd(in.simp(c.a[0], depth-1), in.simp(c.a[1], depth-1))
+	case OpBOr:
+		return in.tb.BOr(in.simp(c.a[0], depth-1), in.simp(c.a[1], depth-1))
+	case OpEq:
+		if c.a[0].w == 0 {
+			return c
+		}
+		x, y := in.resolve(c.a[0]), in.resolve(c.a[1])
+		if x != c.a[0] || y != c.a[1] {
+			return in.tb.Eq(x, y)
+		}
+	case OpUlt, OpUle, OpSlt, OpSle:
+		x, y := in.resolve(c.a[0]), in.resolve(c.a[1])
+		if x != c.a[0] || y != c.a[1] {
+			return in.tb.Cmp(c.op, x, y)
+		}
+	}
+	if in.pcSet[in.tb.BNot(c)] {
+		return in.tb.F
+	}
+	return c
+}
+
+// resolve replaces a term by the constant the path condition pins it to, if any.
+func (in *Interp) resolve(t *Term) *Term {
+	if t.op == OpConst {
+		return t
+	}
+	if k, ok := in.eqConst[t]; ok {
+		return k
+	}
+	// through zero/sign extension
+	if (t.op == OpZExt || t.op == OpSExt) && t.a[0].op != OpConst {
+		if k, ok := in.eqConst[t.a[0]]; ok {
+			if t.op == OpZExt {
+				return in.tb.ZExt(k, t.w)
+			}
+			return in.tb.SExt(k, t.w)
+		}
+	}
+	if t.op == OpAdd && t.a[1].op == OpConst {
+		if r := in.resolve(t.a[0]); r.op == OpConst {
+			return in.tb.Bin(OpAdd, r, t.a[1])
+		}
+	}
+	return t
+}
+
+func (in *Interp) restoreLits(n int) {
+	for _, t := range in.litLog[n:] {
+		delete(in.pcSet, t)
+		if t.op == OpEq && t.a[1].op == OpConst {
+			delete(in.eqConst, t.a[0])
+		}
+	}
+	in.litLog = in.litLog[:n]
 }
 
 // check decides satisfiability of pc ∧ c.
@@ -256,6 +370,13 @@ func (in *Interp) check(c *Term) SatResult {
 	if r, ok := in.satCache[t]; ok {
 		return r
 	}
+	// subsumption: c was refuted under a prefix of the current path condition
+	for _, old := range in.unsatUnder[c] {
+		if old == in.tb.T || in.pcChain[old] {
+			in.satCache[t] = Unsat
+			return Unsat
+		}
+	}
 	for _, cm := range in.models {
 		if v, ok := in.tb.Eval(t, cm.m, cm.memo); ok && v == 1 {
 			in.satCache[t] = Sat
@@ -267,6 +388,26 @@ func (in *Interp) check(c *Term) SatResult {
 		in.addModel(m)
 	}
 	in.satCache[t] = r
+	if r == Unsat && !in.inPure {
+		in.unsatUnder[c] = append(in.unsatUnder[c], in.pc)
+	}
+	if in.cfg.Sites && in.cur != nil && len(in.cur.frames) > 0 {
+		f := in.cur.top()
+		pos := "?"
+		if f.block != nil && f.ip < len(f.block.Instrs) {
+			ins := f.block.Instrs[f.ip]
+			p := ins.Pos()
+			if iff, ok := ins.(*ssa.If); ok {
+				p = iff.Cond.Pos()
+			}
+			pos = in.fset.Position(p).String()
+		}
+		in.qsites[fmt.Sprintf("%v %s %s", r, f.fn.Name(), pos)]++
+		if d := os.Getenv("GOSYM_QDUMP"); d != "" && strings.Contains(pos, d) && in.qsites["dump"] < 6 {
+			in.qsites["dump"]++
+			fmt.Fprintf(os.Stderr, "QDUMP %s %v c=%s\n   pc=%v\n", pos, r, c.String(), in.pcList)
+		}
+	}
 	return r
 }
 
@@ -321,6 +462,9 @@ func (in *Interp) branch(c *Term, kind string) bool {
 	if c.op == OpFalse {
 		return false
 	}
+	if sc := in.simp(c, 4); sc.IsConst() {
+		return sc.op == OpTrue
+	}
 	rt := in.check(c)
 	rf := in.check(in.tb.BNot(c))
 	ft, ff := rt != Unsat, rf != Unsat
@@ -336,8 +480,14 @@ func (in *Interp) branch(c *Term, kind string) bool {
 		in.assumeTerm(in.tb.BNot(c))
 		return false
 	case ft:
+		if rf == Unsat {
+			in.addLits(c) // implied by the path condition
+		}
 		return true
 	case ff:
+		if rt == Unsat {
+			in.addLits(in.tb.BNot(c))
+		}
 		return false
 	}
 	panic(abort{abInfeasible, "path condition unsatisfiable"})
@@ -354,6 +504,7 @@ func (in *Interp) note(s string) {
 
 // concretize forks over the feasible values of t.
 func (in *Interp) concretize(t *Term, what string) int64 {
+	t = in.resolve(t)
 	if t.op == OpConst {
 		return sx(t.val, t.w)
 	}
@@ -1201,6 +1352,7 @@ func (in *Interp) execIndexAddr(th *Thread, f *Frame, x *ssa.IndexAddr) {
 			idx = in.tb.ZExt(idx, 64)
 		}
 	}
+	idx = in.resolve(idx)
 	var arr *Cell
 	off, n := 0, 0
 	switch b := base.(type) {
@@ -1279,6 +1431,7 @@ func (in *Interp) strIndex(th *Thread, s StrV, idx *Term) (Value, bool) {
 	if idx.w != 64 {
 		idx = in.tb.ZExt(idx, 64)
 	}
+	idx = in.resolve(idx)
 	n := len(s.b)
 	if idx.op == OpConst {
 		i := sx(idx.val, 64)
